@@ -110,7 +110,7 @@ def family(rng, tier):
 
     # ---- getaddrinfo / gethostby* / getnameinfo ----
     add("gai-both", "servers=1",
-        "gai 1 www.%s 0 0x80 http;rsp x0 an=A:1.2.3.4+A:1.2.3.5;rsp x1 an=AAAA:[2001:db8::1];run" % a, quick=True)
+        "gai 1 www.%s 0 0x80 http;rsp x0 an=A:1.2.3.4+A:1.2.3.5;rsp x1 an=AAAA:[2001:db8::1];run;rspall an=A:1.2.3.4+A:1.2.3.5;run" % a, quick=True)
     add("gai-sort-cname", "servers=1 sortlist=10.0.0.0/8",
         "gai 1 www.%s 4 0x2;rspall an=CNAME:real.%s+A:192.168.1.1@real.%s+A:10.2.3.4@real.%s;run" % (m, m, m, m))
     add("gai-hosts-file", "servers=1 lookups=fb hosts=%s" % HOSTS, "gai 1 filehost.example 0 0x80;gai 2 v6only.example 6 0x80")
@@ -118,7 +118,7 @@ def family(rng, tier):
         "gai 1 host 4 0x80;rspall rcode=3;run;rspall an=A:1.2.3.4;run")
     add("ghbn", "servers=1", "ghbn 1 %s 4;rspall an=A:1.2.3.4+A:5.6.7.8;run;ghbn 2 %s 6;rspall an=AAAA:[2001:db8::2];run" % (m, m),
         quick=(tier != "quick"))
-    add("ghbn-unspec", "servers=1", "ghbn 1 %s 0;rspall an=A:1.2.3.4;run" % m)
+    add("ghbn-unspec", "servers=1", "ghbn 1 %s 0;rspall an=A:1.2.3.4;run;rspall an=A:1.2.3.4;run" % m)
     add("ghbn-hosts", "servers=1 lookups=f hosts=%s" % HOSTS, "ghbn 1 filehost.example 4;ghbn 2 missing.example 4")
     add("ghba", "servers=1", "ghba 1 10.1.2.3;rspall an=PTR:ptr.%s;run;ghba 2 fd00::77;rspall an=PTR:ptr6.%s;run" % (a, a))
     add("ghba-hosts", "servers=1 lookups=fb hosts=%s" % HOSTS, "ghba 1 10.9.8.7")
